@@ -13,6 +13,9 @@ Decides (S — sibling symmetry, no oracle): for every crate type implementing b
   * the filtered parameter list re-emits {alg, "public-key"} for exactly the entries its decoder keeps.
 Not decided: equality for every *value* of the leaf types (symmetric in the dependencies).
 """
+import json
+import os
+VERIF = os.path.dirname(os.path.dirname(os.path.abspath(__file__)))
 from . import hirq as H
 from . import tables as T
 from . import wire as W
@@ -31,7 +34,17 @@ def run(ctx):
                        "configurations: same key<->field relation, skippable-iff-optional, same field types, canonical emission order, inverse string tables, discriminant tables.")
     ctx.rule = "obligation = (type, member, clause) | (enum, row) per configuration"
     ctx.trusted = ["leaf codecs are symmetric: cbor-smol 0.5.1, heapless, heapless-bytes, serde_bytes, cosey", "serde derive expansions (read from typed HIR)"]
+    spec_msgs = json.load(open(os.path.join(VERIF, "spec", "ctap2_messages.json")))
     for cfg, F in ctx.facts.items():
+        # a response value reaches the wire through ctap2::Response::serialize: that its body is the encoding of the variant's own
+        # payload -- in every configuration in which the variant exists -- is a necessary condition of "decode(encode(v)) == v"
+        # (C17's payload clause; a variant encoded as nothing in some configuration loses its value there)
+        from . import c17
+        from .engine import Probe
+        prp = Probe(facts={cfg: F})
+        c17.payload(prp, F, cfg, spec_msgs, P="C17")
+        ctx.oblige("C15|response-frame", not prp.failed,
+                   "a response is not sent as the encoding of its own payload, what is decoded from it differs from the value encoded: %s" % "; ".join("%s: %s" % (k, m[:160]) for k, m in prp.failed[:2]), cfg=cfg)
         n_types = 0
         n_repr = 0
         for a in sorted(F.adts.values(), key=lambda a: a["path"]):
